@@ -30,7 +30,7 @@ def snapshot(results):
     return out
 
 
-def make_results(d, lang, shape, batch, nbest, n, minimal=False, extra=False):
+def make_results(d, lang, shape, batch, nbest, n, minimal=False, extra=False, unsorted=False):
     from depccg.tree import ScoredTree, Tree
     from depccg.cat import Category
     res = []
@@ -54,19 +54,19 @@ def make_results(d, lang, shape, batch, nbest, n, minimal=False, extra=False):
                     for key in list(tok.keys()):
                         if key not in ('word',):
                             del tok[key]
-            sent.append(ScoredTree(t, -1.5 - k))
+            sent.append(ScoredTree(t, -1.5 - k if not unsorted else -3.5 + k))
         res.append(sent)
     if minimal:
         res.append([ScoredTree(Tree.make_terminal('FAILED', Category.parse('NP')), -float('inf'))])
     return res
 
 
-def h_seq(d, lang, shape, batch, nbest, n, seqlen, first=None, minimal=False, extra=False):
+def h_seq(d, lang, shape, batch, nbest, n, seqlen, first=None, minimal=False, extra=False, unsorted=False):
     from depccg.printer import to_string
     from depccg.lang import set_global_language_to
     set_global_language_to(lang)
     fmts = FORMATS[lang]
-    res = make_results(d, lang, shape, batch, nbest, n, minimal, extra)
+    res = make_results(d, lang, shape, batch, nbest, n, minimal, extra, unsorted)
     snap0 = snapshot(res)
     out = None
     seq = []
@@ -79,7 +79,7 @@ def h_seq(d, lang, shape, batch, nbest, n, seqlen, first=None, minimal=False, ex
             return ('render-raises.%s.after-%s:%s' % (f, '+'.join(seq[:-1]) or 'nothing', type(e).__name__),)
         if snapshot(res) != snap0:
             return ('mutated-by.' + f, seq)
-    fresh = make_results(_Again(d), lang, shape, batch, nbest, n, minimal, extra)
+    fresh = make_results(_Again(d), lang, shape, batch, nbest, n, minimal, extra, unsorted)
     try:
         out2 = to_string(fresh, format=seq[-1])
     except Exception as e:
@@ -129,6 +129,9 @@ def obligations(tier):
                 n = 1 if (batch, nbest) == (1, 1) else 0
                 yield Obligation('C18.seq[%s,%s,batch=%dx%d,len=2]' % (lang, shape_name(s), batch, nbest), 'h_seq',
                                  dict(lang=lang, shape=s, batch=batch, nbest=nbest, n=n, seqlen=2), cost=10)
+                if (batch, nbest) == (2, 2) and s == SHAPES[2][0]:
+                    yield Obligation('C18.seq[%s,%s,batch=2x2,n-best lists not in score order,len=2]' % (lang, shape_name(s)), 'h_seq',
+                                     dict(lang=lang, shape=s, batch=2, nbest=2, n=0, seqlen=2, unsorted=True), cost=10)
                 if (batch, nbest) == (1, 1) and s in (SHAPES[1][0], SHAPES[2][0]):
                     yield Obligation('C18.seq[%s,%s,word-only tokens + failed sentence,len=2]' % (lang, shape_name(s)), 'h_seq',
                                      dict(lang=lang, shape=s, batch=1, nbest=1, n=0, seqlen=2, minimal=True), cost=10)
